@@ -47,7 +47,7 @@ def bounded_rebatch(p):
             batches.append(tuple(b))
             start += sz
           total = start
-          for pad, given in itertools.product((None, -1), (True, False)):
+          for pad, given in itertools.product((None, -1, 0), (True, False)):      # 0: a falsy pad value is still a pad value
             if not given and not batches:
               continue      # the column count can only be inferred from a first batch
             got = expect(lambda: list(iter_utils.rebatched_args(iter(batches), batch_size=target, num_columns=ncol if given else 0, pad=pad)))
@@ -73,7 +73,7 @@ def bounded_rebatch(p):
                 exp = list(cols_rows[c])
                 if npad:
                   body, tail = rows[:len(rows) - npad], rows[len(rows) - npad:]
-                  if body != exp or any((t != -1 and t != (-1.0, -1.0) and t != (-1, -1)) for t in tail):
+                  if body != exp or any((t != pad and t != (float(pad), float(pad)) and t != (pad, pad)) for t in tail):
                     ok, why = False, f'column {c}: rows {rows}, expected {exp} + {npad} pads'
                 elif rows != exp:
                   ok, why = False, f'column {c}: rows {rows}, expected {exp}'
